@@ -148,3 +148,9 @@ def run(cx):
         votes[fn] = ok
     cx.ob('EXPR', 'order-vote:siblings', votes == {'geom2::hull::point_order_direction': True, 'geom2::curve2::Curve2::from_points_ccw': True},
           'both order detectors sum signum(hull[(i+1)%n] - hull[i]) over the convex hull of the input and decide on `sum > 0` (counter-clockwise / keep order)', found=str(votes))
+
+
+def run_thorough(cx):
+    """thorough tier: the generic evaluators this property relies on must fire on their positive fixture twins"""
+    from rules import fixture_check as FX
+    FX.enc(cx)
